@@ -82,7 +82,7 @@ def variant_build(job):
     rc, out = cli.nanoemoji(["--color_format", fmt, "--build_dir", build, *args], cwd, env)
     fonts = list(Path(build).glob("Font.*tf"))
     if rc != 0 or not fonts:
-        return {"id": v["id"], "rc": rc, "tail": out[-300:], "v": v}
+        return {"id": v["id"], "rc": rc, "tail": out[-300:], "failed": [ln for ln in out.splitlines() if "FAILED" in ln or "Error" in ln or "error" in ln][:6], "v": v}
     from fontTools import ttLib
     return {"id": v["id"], "rc": 0, "sha": cli.sha256(fonts[0]), "order": ttLib.TTFont(str(fonts[0])).getGlyphOrder(), "v": v}
 
@@ -110,10 +110,17 @@ def suite(ctx, res, formats):
             rs = results[k:k + len(variants)]
             k += len(variants)
             base = rs[0]
+            if all(r["rc"] != 0 for r in rs):
+                # the input is rejected under every variant alike (e.g. a 2:1 viewBox is "too big for CBDT" at the default resolution):
+                # nothing about determinism to compare, and rejecting unrepresentable input is C14's business
+                for r in rs:
+                    res.count(key=("build", fmt, r["id"]), nontrivial=False)
+                res.stat("rejected-under-every-variant:" + fmt)
+                continue
             for r in rs:
                 res.count(key=("build", fmt, r["id"]), nontrivial=r["id"] != 0)
                 if r["rc"] != 0:
-                    res.add_cex("a build variant failed", {"fmt": fmt, "variant": r["v"], "tail": r.get("tail")}, {"site": "c08-build", "fmt": fmt, "variant": r["v"]})
+                    res.add_cex("a build variant failed", {"fmt": fmt, "variant": r["v"], "tail": r.get("tail"), "failed": r.get("failed")}, {"site": "c08-build", "fmt": fmt, "variant": r["v"]})
                     continue
                 res.stat("built:" + fmt)
                 if base["rc"] == 0 and r["sha"] != base["sha"]:
